@@ -66,9 +66,10 @@ class RunEval:
             self.events.append((kind, k.get("section"), k.get("scope")))
         return rec
 
-    def prepare(self):
+    def prepare(self, output="c"):
+        out_node = {"c": self.c, "lit": self.lit, None: None}[output]
         prep = self.w.interp.call_func(self.rr.prep_run, None, [self.w.plan],
-                                       {"inplace": False, "output_node": self.c, "retry": self.retry, "progress_observer": self.observer})
+                                       {"inplace": False, "output_node": out_node, "retry": self.retry, "progress_observer": self.observer})
         if not isinstance(prep, Obj) or "__tuple_fields__" not in prep.attrs:
             raise AnalysisError("run preparation does not return its record of (bound calls, output slot, callback, plan)")
         vals = [prep.attrs[n] for n in prep.attrs["__tuple_fields__"]]
@@ -77,6 +78,7 @@ class RunEval:
         procs = [v for v in vals if type(v).__name__ in ("Closure",)] or procs
         # the output slot: the record field that is an object with a `value` cell (not the plan, not a table, not the callback)
         slots = [v for v in vals if isinstance(v, Obj) and v.cls is not None and "value" in v.attrs and "graph" not in v.attrs]
+        self.prepared_values = vals
         if len(tables) != 1 or len(procs) != 1:
             raise AnalysisError("run preparation: cannot identify the bound-call table and the run callback in its result")
         return tables[0], (slots[0] if slots else None), procs[0]
